@@ -330,7 +330,7 @@ register_element(
         symbol="Tlmno",
         name="Non-blocking porous electrode, open",
         description="Transmission line, non-blocking porous electrode with perfectly reflective inner boundary. Also known as 'Bisquert, open'. Model (f) in DOI:10.1039/B001708F with corrected form from DOI:10.1021/jp993148h.",
-        equation="(R_i*R_ct / (1+(I*2*pi*f/(((R_ct*Y)^(1/n))^-1))^n))^(1/2) * coth((((R_ct/L*Y)^(1/n))^-1/((R_i*Y*L^2)^(1/n))^-1)^(n/2) * (1+(I*2*pi*f/(((R_ct*Y)^(1/n))^-1))^n)^(1/2))",
+        equation="(R_i*R_ct / (1+(I*2*pi*f/(((R_ct*Y)^(1/n))^-1))^n))^(1/2) * coth((((R_ct*Y)^(1/n))^-1/((R_i*Y*L^2)^(1/n))^-1)^(n/2) * (1+(I*2*pi*f/(((R_ct*Y)^(1/n))^-1))^n)^(1/2))",
         parameters=[
             ParameterDefinition(
                 symbol="R_i",
